@@ -1,0 +1,18 @@
+//go:build verif
+
+package pppoe
+
+import "net"
+
+// Verification hooks for the packet-robustness property (C09 of /verif): thin exported wrappers
+// around unexported entry points.  Add-only, compiled only with -tags verif; no logic of their own.
+
+// HandlePAPForVerif feeds one PAP packet (PPP payload after the protocol field) to the server's
+// PAP handler for the given session, exactly as handleSession does.
+func (s *Server) HandlePAPForVerif(session *Session, data []byte) { s.handlePAP(session, data) }
+
+// CreateSessionForVerif creates a session in the server's session table without a PADR exchange
+// (no LCP negotiation goroutine is started).
+func (s *Server) CreateSessionForVerif(clientMAC net.HardwareAddr) (*Session, error) {
+	return s.sessions.CreateSession(clientMAC, s.serverMAC)
+}
